@@ -19,8 +19,10 @@
 (*   hdr      decoded extension headers (req only):                        *)
 (*            mhas/ohas: header present;  mok/ook: value survives the      *)
 (*            DSP0200 decoding (%-unescape, then UTF-8);  method;          *)
-(*            form "ns" | "path";  ns: namespace components;  cls: class   *)
-(*            name or "";  keys: key names.  Names are case-folded tokens. *)
+(*            form "ns" | "path";  ns: namespace components (the namespace *)
+(*            part split at "/" as it stands; nss: the same after removing *)
+(*            leading and trailing slashes);  cls: class name or "";       *)
+(*            keys: key names.  Names are case-folded tokens.              *)
 (*                                                                         *)
 (* Fails(s, e) is the set of clauses of the statement that e violates.     *)
 (***************************************************************************)
@@ -78,13 +80,18 @@ MethodAgrees(e) ==
   /\ e.hdr.method = BodyMethod(e.tree)
 
 (* CIMObject denotes the body's target; compared abstractly.  Export       *)
-(* requests have no target (DSP0200: no CIMObject header).                 *)
+(* requests have no target (DSP0200: no CIMObject header).  The namespace  *)
+(* is the sequence of its "/"-separated components, empty ones included    *)
+(* (the empty namespace is ONE empty component: the body can only say      *)
+(* <NAMESPACE NAME=""/>); slashes around the header's namespace part (a    *)
+(* WBEM URI has a leading one, CIMObject has not) are not held against the *)
+(* code: either reading may agree.                                         *)
 ObjectAgrees(e) ==
   LET b == BodyTarget(e.tree) IN
   IF b.form = "none" THEN TRUE
   ELSE /\ e.hdr.ohas /\ e.hdr.ook
        /\ e.hdr.form = b.form
-       /\ e.hdr.ns = b.ns
+       /\ (e.hdr.ns = b.ns \/ e.hdr.nss = b.ns)
        /\ e.hdr.cls = b.cls
        /\ SeqToSet(e.hdr.keys) = b.keys
 
